@@ -354,6 +354,9 @@ class Daemon(object):
             return False
         except Exception as x:
             log.debug("handshake failed, reason:", exc_info=True)
+            if serializer_id not in serializers.serializers_by_id:
+                # the client asked for an unknown serializer, we still have to tell it that the connect failed
+                serializer_id = serializers.MarshalSerializer.serializer_id
             serializer = serializers.serializers_by_id[serializer_id]
             data = serializer.dumps(str(x))
             msgtype = protocol.MSG_CONNECTFAIL
